@@ -307,6 +307,7 @@ class World(object):
         self.out = []
         self.transports = []
         self.sobjs = []
+        self.notify_viol = []         # notification-sequence violations noticed inside the callbacks
         self.last_fd = {}             # id(TcpConnection) -> descriptor number its last socket had
         self.conn_ids = {}            # id(TcpConnection) -> (owner, seq)
         self.conn_objs = []           # per owner: list of TcpConnection in creation order
@@ -428,7 +429,20 @@ class World(object):
         def on_msg(node, msg):
             out.append(["deliver", key(node), self.msgkey(msg)])
 
+        def twice(kind, node):
+            # admissible sequence per (transport, node), from the property text and the behaviour of the repaired tree:
+            # "disconnected" may repeat (every failed attempt of the dialling side reports one), but "connected" is
+            # never reported for a node whose last notification already was "connected" - also not when a new
+            # incoming connection replaces a half-open one: that is reported as disconnected, then connected
+            if repr(key(node)) in view[i]:
+                self.notify_viol.append({
+                    "signature": "transport.notify:connected-twice-without-disconnect",
+                    "what": "transport %d: %s(%r) although the last notification for that node already was 'connected' "
+                            "(no disconnect reported in between: the loss of the previous connection was never "
+                            "announced)" % (i, kind, key(node))})
+
         def on_conn(node):
+            twice("onNodeConnected", node)
             out.append(["nodeConn", key(node)])
             view[i].add(repr(key(node)))
 
@@ -437,6 +451,7 @@ class World(object):
             view[i].discard(repr(key(node)))
 
         def on_roconn(node):
+            twice("onReadonlyNodeConnected", node)
             out.append(["roConn", key(node)])
             view[i].add(repr(key(node)))
 
@@ -1027,8 +1042,9 @@ class Sim(World):
 
     def monitor(self):
         """Evaluate the state clauses of C14 on every live transport; returns a list of violations."""
-        v = list(self.extra_viol)
+        v = list(self.extra_viol) + list(self.notify_viol)
         del self.extra_viol[:]
+        del self.notify_viol[:]
         for i in range(self.n):
             if not self.alive[i]:
                 continue
